@@ -164,7 +164,7 @@ def _site(name, d, kind):
         if what == "save_table":
             return [j("out.csv")], ["csv"], runner(base + ["--save_table", "out.csv"])
     if app == "res":
-        base = ["r1.zip", "r2.zip", "--use_filenames"]
+        base = ["r1.zip", "r2.zip", "--use_filenames"] + (["--ignore_title"] if kind == "str" and what.endswith("table") else [])
         if what == "save_table":
             return [j("out.csv")], ["csv"], runner(base + ["--save_table", "out.csv"], True)
         if what == "save_plot_pdf":
